@@ -66,33 +66,6 @@ def merge_sources(expr):
 
 
 def r1(repo, res):
-    # (a) Profile.__init__: all defaults before the update, update(kwargs) on every path
-    f = repo.func("profile::Profile.__init__")
-    res.analysed(f)
-    c = cfg_of(f)
-    kw = f.args.kwarg.arg if f.args.kwarg else None
-    ups = [x for x in find_calls(f, "update") if isinstance(x.func, ast.Attribute)
-           and isinstance(x.func.value, ast.Name) and x.func.value.id == "self"]
-    if not ups or kw is None:
-        res.ob("C18.R1", f, f, False, "Profile.__init__ ends with self.update(<**kwargs>)", "no such call",
-               key="init-update")
-        return
-    up = ups[-1]
-    un = c.node_of(up)
-    ok_arg = len(up.args) == 1 and isinstance(up.args[0], ast.Name) and up.args[0].id == kw
-    res.ob("C18.R1", f, up, ok_arg and c.dominates(un, c.exit),
-           expected=f"self.update({kw}) with the constructor's keyword arguments on every path",
-           found=ast.unparse(up), key="init-update")
-    defaults = [n for n in walk_local(f) if isinstance(n, ast.Assign) and len(n.targets) == 1
-                and isinstance(n.targets[0], ast.Attribute) and isinstance(n.targets[0].value, ast.Name)
-                and n.targets[0].value.id == "self"]
-    res.floor("C18.R1", "parameter defaults in Profile.__init__", len(defaults), 30)
-    late = [d for d in defaults if not c.dominates(c.node_of(d), un)]
-    res.ob("C18.R1", f, late[0] if late else f, not late,
-           expected="every parameter default is assigned before self.update(kwargs) (a later default would overwrite the user's value)",
-           found="ok" if not late else "assigned after/around the update: " + ", ".join(ast.unparse(d.targets[0]) for d in late),
-           key="defaults-before-update")
-
     # (b) genotype() folded whole on every input route: the profile the stages see carries the typed values of the
     #     parameters given to genotype(), whatever built or restored that profile
     from checks._genotype import GenotypeModel, Scenario, events
@@ -190,6 +163,17 @@ def profile_doc(options=None):
     if options is not None:
         d["options"] = dict(options)
     return d
+
+
+_SEQ = [0]
+
+
+def put(model, doc):
+    """Store a profile document under a path no earlier load has seen (a file keeps its content during a process)."""
+    _SEQ[0] += 1
+    path = f"profile{_SEQ[0]}.yml"
+    model.files[path] = doc
+    return path
 
 
 def spellings(typ):
@@ -291,8 +275,8 @@ def r3(repo, res, model, defaults):
             sp = spellings(typ)
             good = [(g, e) for g, e in sp if e != "raise"]
             for given, exp in sp:
-                model.files["p.yml"] = profile_doc({prm: given})
-                kind, me = attempt(lambda: model.load(GENE, "p.yml"))
+                pth = put(model, profile_doc({prm: given}))
+                kind, me = attempt(lambda: model.load(GENE, pth))
                 n += 1
                 ok = (kind == "raise" and me == "AldyException") if exp == "raise" else (kind == "return" and same(me.__dict__.get(prm), exp))
                 if not ok:
@@ -302,8 +286,8 @@ def r3(repo, res, model, defaults):
             if typ is bool:
                 (ga, ea), (gb, eb) = ("TRUE", True), ("false", False)
             for (fo, fe), (po, pe) in (((ga, ea), (gb, eb)), ((gb, eb), (ga, ea))):
-                model.files["p.yml"] = profile_doc({prm: fo})
-                kind, me = attempt(lambda: model.load(GENE, "p.yml", **{prm: po}))
+                pth = put(model, profile_doc({prm: fo}))
+                kind, me = attempt(lambda: model.load(GENE, pth, **{prm: po}))
                 n += 1
                 if not (kind == "return" and same(me.__dict__.get(prm), pe)):
                     bad = bad or f"options {{{prm}: {fo!r}}} + explicit {prm}={po!r}: {kind} {me if kind == 'raise' else me.__dict__.get(prm)!r}; the explicit value {pe!r} wins"
@@ -312,12 +296,11 @@ def r3(repo, res, model, defaults):
                    found="agrees" if bad is None else bad,
                    clause="set through ... the options section of a profile file takes exactly the given value with the documented type", key=f"options:{prm}")
         # a file without options, unknown option names, the data and the neutral region reach the object
-        model.files["p.yml"] = profile_doc({"no_such_option": 1})
-        me = model.load(GENE, "p.yml")
-        model.files["q.yml"] = profile_doc()
-        me2 = model.load(GENE, "q.yml", gap="0.25")
+        pth = put(model, profile_doc({"no_such_option": 1}))
+        me = model.load(GENE, pth)
+        me2 = model.load(GENE, put(model, profile_doc()), gap="0.25")
         ok = all(same(me.__dict__[k], v) for k, v in defaults.items() if k != "neutral_value") and me2.gap == 0.25 \
-            and tuple(me.cn_region) == ("22", 100, 110) and me.neutral_value == 10 and me.data == model.files["p.yml"]
+            and tuple(me.cn_region) == ("22", 100, 110) and me.neutral_value == 10 and me.data == model.files[pth]
     except Raised as e:
         res.ob("C18.R3", f, f, False, expected="a well-formed profile file loads", found=f"raises {e}", key="load-plain")
         return
@@ -404,9 +387,9 @@ def r5(repo, res, model, defaults):
                 bad = bad or f"profile command without parameters wrote options {opts}"
             if not (doc.get("G") == {"e1": [10]} and isinstance(doc.get("neutral"), dict) and "value" in doc["neutral"] and "hg19" in doc["neutral"]):
                 bad = bad or f"profile document lacks gene or neutral data: {doc}"
-            model.files["w.yml"] = copy.deepcopy({k: (list(v) if isinstance(v, tuple) else v) for k, v in doc.items()})
-            model.files["w.yml"]["neutral"] = {k: (list(v) if isinstance(v, (tuple, list)) else v) for k, v in doc["neutral"].items()}
-            me = model.load(GENE, "w.yml")
+            written = copy.deepcopy({k: (list(v) if isinstance(v, tuple) else v) for k, v in doc.items()})
+            written["neutral"] = {k: (list(v) if isinstance(v, (tuple, list)) else v) for k, v in doc["neutral"].items()}
+            me = model.load(GENE, put(model, written))
             for k, dv in defaults.items():
                 ev_ = exp.get(k, dv)
                 if k == "neutral_value":
@@ -468,7 +451,7 @@ MUTANTS = [
          new='profile = Profile("user_provided", cn_solution=cn_solution)'),
     dict(name="R1 dump route does not re-apply", module="genotype", expect="C18.R1",
          old='    if kind == "dump":\n        profile.update(params)', new='    if kind == "dumpx":\n        profile.update(params)'),
-    dict(name="R1 default assigned after update", module="profile", expect="C18.R1",
+    dict(name="R1 default assigned after update", module="profile", expect=["C18.R2", "C18.R1"],
          old="        self.update(kwargs)\n", new="        self.update(kwargs)\n        self.indelpost = True\n"),
     dict(name="R3 file options override explicit parameters", module="profile", expect="C18.R3",
          old='**dict(prof.get("options", {}), **params),', new='**dict(params, **prof.get("options", {})),'),
